@@ -32,14 +32,33 @@ def parseLayout (s : String) : Option (List (Nat × List Nat)) :=
       | _, _ => none
     | _ => none)
 
-def parseMembers (s : String) : Option (List (Nat × Nat)) :=
+/-- `id:addr[@dc]` members: (id, addr, dc). -/
+def parseMembersDc (s : String) : Option (List (Nat × Nat × Nat)) :=
   if s == "-" then some []
   else (s.splitOn ",").mapM (fun part =>
-    match part.splitOn ":" with
-    | [a, b] => match a.toNat?, b.toNat? with
-      | some a, some b => some (a, b)
+    let (part, dc) := match part.splitOn "@" with
+      | [p, d] => (p, d.toNat?)
+      | _ => (part, some 0)
+    match part.splitOn ":", dc with
+    | [a, b], some dc => match a.toNat?, b.toNat? with
+      | some a, some b => some (a, b, dc)
       | _, _ => none
-    | _ => none)
+    | _, _ => none)
+
+def parseMembers (s : String) : Option (List (Nat × Nat)) :=
+  (parseMembersDc s).map (·.map (fun m => (m.1, m.2.1)))
+
+def insertNat (x : Nat) : List Nat → List Nat
+  | [] => [x]
+  | y :: ys => if x < y then x :: y :: ys else if x = y then y :: ys else y :: insertNat x ys
+
+/-- The data-centre map `watch_membership_changes` hands to the selector: `BTreeMap<dc, Vec<addr>>`, members pushed in node-id
+order (the local node included). -/
+def layoutOf (ms : List (Nat × Nat × Nat)) : List (Nat × List Nat) :=
+  let sorted := Membership.sortMembers (ms.map (fun m => (m.1, m.2.1)))    -- by id
+  let dcOf := fun (id : Nat) => ((ms.find? (·.1 == id)).map (·.2.2)).getD 0
+  let dcs := (ms.map (·.2.2)).foldr insertNat []
+  dcs.map (fun d => (d, (sorted.filter (fun m => dcOf m.1 == d)).map (·.2)))
 
 def fmtNats (l : List Nat) : String := if l.isEmpty then "-" else ",".intercalate (l.map toString)
 
@@ -109,20 +128,25 @@ def step (st : State) (toks : List String) : State × String :=
     | _, _ => (st, "bad-op")
   | ["realnodes", _, _] => (st, "real ok")   -- select_sound / selectN_complete: no selection of a well-formed layout is bad
   | ["sel-expire"] => ({ st with actor := { st.actor with cache := [] } }, "ok")
-  | ["mem-init", self] =>
+  | "mem-init" :: self :: rest =>
     match self.toNat? with
     | some self =>
       -- the watcher starts by processing the initial (empty) snapshot
       let w : Membership.Watcher := { self := self }
       let (_, w') := Membership.watchStep w []
-      ({ st with watcher := w', chan := (({} : Membership.Chan).send []), snap := [], subs := [] }, "ok")
+      -- ... and hands the (empty) data-centre map to the selector it feeds
+      let la := ((rest[0]?).bind (·.toNat?)).getD 100
+      let ld := ((rest[1]?).bind (·.toNat?)).getD 0
+      let actor := Selector.setNodes { local_ := la, localDc := ld } []
+      ({ st with watcher := w', chan := (({} : Membership.Chan).send []), snap := [], subs := [], actor := actor, fresh := true }, "ok")
     | none => (st, "bad-op")
   | ["mem-snap", s] =>
-    match parseMembers s with
-    | some snap =>
+    match parseMembersDc s with
+    | some ms =>
+      let snap := ms.map (fun m => (m.1, m.2.1))
       -- the node's own watcher (disconnects, selector update) and then the publication of the processed snapshot
       let (_, w') := Membership.watchStep st.watcher snap
-      ({ st with watcher := w', chan := st.chan.send snap, snap := snap },
+      ({ st with watcher := w', chan := st.chan.send snap, snap := snap, actor := Selector.setNodes st.actor (layoutOf ms) },
         s!"published {fmtMembers (sortById snap)}")
     | none => (st, "bad-op")
   | ["mem-sub"] => ({ st with subs := st.subs ++ [{}] }, s!"sub {st.subs.length}")
